@@ -283,9 +283,15 @@ pub fn child_main() -> ! {
 }
 
 fn run_child(job: &serde_json::Value, limit: Duration) -> (Vec<String>, Option<String>) {
+    run_child_with("render-child", job, limit)
+}
+
+/// Spawns this binary with sub-command `sub`, feeds it `job` on stdin; returns its stdout lines
+/// and, if it did not exit normally, how it ended ("timeout", "signal N", "exit N").
+pub fn run_child_with(sub: &str, job: &serde_json::Value, limit: Duration) -> (Vec<String>, Option<String>) {
     let exe = std::env::current_exe().expect("current_exe");
     let mut child = Command::new(exe)
-        .arg("render-child")
+        .arg(sub)
         .stdin(Stdio::piped())
         .stdout(Stdio::piped())
         .stderr(Stdio::null())
